@@ -9,6 +9,8 @@ def getMaintProcDesc(procedure):
         return json.dumps(['Fixture procedure one.'])
     if procedure == 'FIXBOOM':
         raise ValueError('fixture callout parser refuses')
+    if procedure == 'FIXEMPT':
+        raise ValueError
     if procedure == 'FIXIMPT':
         import verif_fixture_missing_dependency   # noqa: F401
     if procedure == 'FIXJUNK':
